@@ -1,5 +1,6 @@
 (* Props/C20.v — property C20: lanelet arc-length geometry and successor-route enumeration are sound.
    Statements only; every proof is [exact <lemma of Proofs/ArcLen.v or Proofs/Routes.v>].
+   Vertices are (x, y, z) (a 2-D lanelet has z = 0 throughout); |.| is the Euclidean norm of all three coordinates.
    Segment lengths are oracle values [ls] (sqrt is not computed in Q): valid_lens P ls says 0 <= l_i and
    l_i^2 == |P_{i+1} - P_i|^2; [positive ls] is what "consecutive vertices distinct" gives for valid lengths. *)
 From Coq Require Import QArith ZArith Bool List.
@@ -61,6 +62,17 @@ Theorem C20_merge_length : forall Cp Cs lp ls lm,
   valid_lens Cp lp -> valid_lens Cs ls -> valid_lens (Cp ++ tl Cs) lm ->
   last (cum lm) 0 == last (cum lp) 0 + last (cum ls) 0.
 Proof. exact merge_length. Qed.
+(* the merged lanelet is a lanelet: its cumulative distance (computed from its own centre line, to which
+   C20_cum_* and C20_interpolate apply) has one entry per merged vertex and is the predecessor's cumulative distance
+   followed by the successor's shifted by the predecessor's length, in vertex order (not argument order) *)
+Theorem C20_merge_distance : forall Cp Cs lp ls lm,
+  Cp <> [] -> Cs <> [] -> last Cp origin = hd origin Cs ->
+  valid_lens Cp lp -> valid_lens Cs ls -> valid_lens (Cp ++ tl Cs) lm ->
+  List.length (cum lm) = (List.length (cum lp) + List.length ls)%nat /\
+  (forall i, (i <= List.length lp)%nat -> nth i (cum lm) 0 == nth i (cum lp) 0) /\
+  (forall j, (j <= List.length ls)%nat ->
+     nth (List.length lp + j) (cum lm) 0 == last (cum lp) 0 + nth j (cum ls) 0).
+Proof. exact merge_distance. Qed.
 
 (* ---- find_lanelet_successors_in_range / predecessors_in_range (succ := the predecessor function) ---- *)
 (* on every graph whose ids lie in a finite set V (cycles allowed): |V|+1 rounds of the while loop suffice;
@@ -87,19 +99,22 @@ Theorem C20_routes_fuel_irrelevant : forall succ len start maxlen fuel R,
 Proof. exact routes_fuel_mono. Qed.
 
 (* ---- non-vacuity ---- *)
-(* polyline (0,0),(3,4),(3,10) with lengths 5, 6: valid, positive; s = 5 (exactly at the vertex) gives
-   segment 0 and the vertex itself; cyclic graph 1->2->3->1, 2->4 from start 1 with range 25 *)
+(* the ramp (0,0,0),(3,0,4),(3,6,4) (climbs 4 over the first 3, then level) with lengths 5, 6: valid, positive
+   (the plan-view lengths 3, 6 are NOT valid); s = 5 (exactly at the vertex) gives segment 0 and the vertex itself;
+   cyclic graph 1->2->3->1, 2->4 from start 1 with range 25 *)
 Example C20_nonvacuous :
-  let C := [(0, 0); (3, 4); (3, 10)] in
+  let C := [(0, 0, 0); (3, 0, 4); (3, 6, 4)] in
   let ls := [5; 6] in
-  valid_lens C ls /\ positive ls /\ distinct_consecutive C /\
-  interpolate C C C ls 5 = IOk (lerp (5 / 5) (0, 0) (3, 4)) (lerp (5 / 5) (0, 0) (3, 4)) (lerp (5 / 5) (0, 0) (3, 4)) 0 /\
+  valid_lens C ls /\ ~ valid_lens C [3; 6] /\ positive ls /\ distinct_consecutive C /\
+  interpolate C C C ls 5 =
+    IOk (lerp (5 / 5) (0, 0, 0) (3, 0, 4)) (lerp (5 / 5) (0, 0, 0) (3, 0, 4)) (lerp (5 / 5) (0, 0, 0) (3, 0, 4)) 0 /\
   let succ := fun i : Z => if (i =? 1)%Z then [2%Z] else if (i =? 2)%Z then [3%Z; 4%Z]
                            else if (i =? 3)%Z then [1%Z] else [] in
   routes succ (fun _ => 10) 1%Z 25 5 = Some [[2%Z; 3%Z]; [2%Z; 4%Z]].
 Proof.
-  cbv zeta. split; [|split; [|split; [|split]]].
+  cbv zeta. split; [|split; [|split; [|split; [|split]]]].
   - repeat constructor; vm_compute; congruence.
+  - intro H. inversion H as [|? ? ? ? [_ E] _]; subst. vm_compute in E. discriminate.
   - repeat constructor.
   - repeat constructor; vm_compute; congruence.
   - vm_compute. reflexivity.
@@ -116,6 +131,7 @@ Print Assumptions C20_interpolate.
 Print Assumptions C20_merge.
 Print Assumptions C20_merge_swapped.
 Print Assumptions C20_merge_length.
+Print Assumptions C20_merge_distance.
 Print Assumptions C20_routes.
 Print Assumptions C20_routes_sound.
 Print Assumptions C20_routes_fuel_irrelevant.
